@@ -296,6 +296,7 @@ impl Engine for C13 {
                 app_rows,
                 app_files: run.app_files.max(1),
                 app_console: false,
+                app_legacy_date: false,
                 net_faults: run.net_faults.clone(),
                 fs_faults: run.fs_faults.clone(),
                 knobs: Knobs { max_write: sc.max_write, max_read: sc.max_read },
